@@ -7,7 +7,8 @@
    (A \cdot B, evaluated by TLC with -Dtlc2.tool.impl.Tool.cdot=true); the last stage of every
    composition (Adv) compares the logged fields with the state reached and consumes the line.
 
-     Reset   new execution: threads, value of the trigger, programs (several executions per file)
+     Reset   new execution: threads, value of the trigger, programs (several executions per process,
+             several processes per file; first = first execution of a process)
      Call    the thread enters a call                          Dispatch
      Cas     result of the CAS in mtCallOnce (hooks only)      CCasWin | CCasSpin | CCasDone
      Pub     the publication, value before/after (hooks only)  [IMtx.IReg.ISet.] CPub
@@ -56,7 +57,7 @@ AllIdle == \A t \in Threads : pc[t] = "idle"
 TraceReset ==
   /\ IsEv("Reset")
   /\ AllIdle /\ mtx = Free /\ ctr = 0 /\ ~st.valid
-  /\ (l > 1 => once = Ev.once)            \* the trigger keeps its value between executions
+  /\ ((l > 1 /\ ~Ev.first) => once = Ev.once)   \* the trigger keeps its value between the executions of a process
   /\ once' = Ev.once /\ inited' = Ev.inited /\ mtx' = Free /\ ctr' = 0 /\ st' = NullSt /\ epochs' = 0 /\ out' = {}
   /\ pc' = [t \in Threads |-> "idle"] /\ op' = [t \in Threads |-> "none"]
   /\ calls' = [t \in Threads |-> 0] /\ refs' = [t \in Threads |-> 0]
@@ -79,22 +80,27 @@ TraceCas ==
 
 TracePub ==
   /\ IsEv("Pub") /\ obs.once
-  /\ Ev.pre = BUSY /\ once = BUSY /\ Ev.post = 1
-  /\ CPub(Th)
+  /\ Ev.pre = BUSY /\ Ev.post = 1
+  /\ \/ once = BUSY /\ CPub(Th)
+     \/ pc[Th] = "c_chk" /\ once = 1 /\ IsValidSync /\ UNCHANGED vars     \* already seen by an rngIsValid, see TraceNext
   /\ l' = l + 1 /\ UNCHANGED <<tags, obs>>
 
-\* mtCallOnce as one step when it is not observed
+\* the unobservable steps of rngInit, taken at once by the winner of the trigger
+InitSteps(w) == K(IMtx(w)) \cdot K(IReg(w)) \cdot K(ISet(w))
+\* mtCallOnce as one step when it is not observed (the thread may have been moved on by Hidden)
 OncePass(t) ==
-  \/ once = 0 /\ (K(CCasWin(t)) \cdot K(IMtx(t)) \cdot K(IReg(t)) \cdot K(ISet(t)) \cdot K(CPub(t)))
-  \/ once = 1 /\ K(CCasDone(t))
+  \/ pc[t] = "c_cas" /\ once = 0 /\ (K(CCasWin(t)) \cdot InitSteps(t) \cdot K(CPub(t)))
+  \/ pc[t] = "c_cas" /\ once = 1 /\ K(CCasDone(t))
+  \/ pc[t] = "c_pub" /\ K(CPub(t))
 
 LockBind == Adv(op[Th] = Ev.call /\ mtx = Th /\ PeekOk)
 TraceLock ==
   /\ IsEv("Lock")
   /\ \/ pc[Th] = "lock" /\ (K(Lock(Th)) \cdot LockBind)
      \/ pc[Th] = "c_chk" /\ (K(CChk(Th)) \cdot K(Lock(Th)) \cdot LockBind)
-     \/ pc[Th] = "v_chk" /\ (K(VChk(Th)) \cdot K(Lock(Th)) \cdot LockBind)
-     \/ pc[Th] = "c_cas" /\ ~obs.once /\ (OncePass(Th) \cdot K(CChk(Th)) \cdot K(Lock(Th)) \cdot LockBind)
+     \/ pc[Th] = "v_chk" /\ ~IsValidSync /\ (K(VChk(Th)) \cdot K(Lock(Th)) \cdot LockBind)
+     \/ pc[Th] = "v_chk" /\ IsValidSync /\ (K(VChk(Th)) \cdot K(VChk2(Th)) \cdot K(Lock(Th)) \cdot LockBind)
+     \/ pc[Th] \in {"c_cas", "c_pub"} /\ ~obs.once /\ (OncePass(Th) \cdot K(CChk(Th)) \cdot K(Lock(Th)) \cdot LockBind)
 
 \* which generator / blob function may a body call?   0 brngCTRStepR  1 brngCTRStart  2 blobCreate  3 blobClose
 GenOk(c, w) ==
@@ -125,18 +131,26 @@ TraceRet ==
   /\ IsEv("Ret")
   /\ \/ RetBind
      \/ pc[Th] = "v_chk" /\ (K(VChk(Th)) \cdot RetBind)
+     \/ pc[Th] = "v_chk" /\ IsValidSync /\ (K(VChk(Th)) \cdot K(VChk2(Th)) \cdot RetBind)
      \/ pc[Th] = "c_chk" /\ (K(CChk(Th)) \cdot RetBind)
-     \/ pc[Th] = "c_cas" /\ ~obs.once /\ (OncePass(Th) \cdot K(CChk(Th)) \cdot RetBind)
+     \/ pc[Th] \in {"c_cas", "c_pub"} /\ ~obs.once /\ (OncePass(Th) \cdot K(CChk(Th)) \cdot RetBind)
 
 TraceEnd ==
   /\ IsEv("End")
   /\ Adv(Ev.lost = 0 /\ AllIdle /\ mtx = Free /\ ctr = 0 /\ ~st.valid /\ \A t \in Threads : refs[t] = 0)
 
 Event == TraceReset \/ TraceCall \/ TraceCas \/ TracePub \/ TraceLock \/ TraceGen \/ TraceUnlock \/ TraceRet \/ TraceEnd
-\* the unobservable steps of rngInit, taken at once by the winner of the trigger
-InitSteps(w) == K(IMtx(w)) \cdot K(IReg(w)) \cdot K(ISet(w))
-TraceNext == \/ Event
-             \/ \E w \in Threads : pc[w] = "i_mtx" /\ (InitSteps(w) \cdot Event)
+\* Unobservable steps that may precede an event.  With the once-events logged these are the three
+\* steps of rngInit (between the winning CAS and the publication).  Without them another thread's
+\* mtCallOnce may have won, initialised and published before the event (its own Lock event comes later).
+TraceNext ==
+  \/ Event
+  \/ \E w \in Threads : pc[w] = "i_mtx" /\ (InitSteps(w) \cdot Event)
+  \* rngIsValid reads the trigger outside every bracket: it may see the publication before the Pub event is stamped
+  \/ \E w \in Threads : obs.once /\ IsValidSync /\ pc[w] = "c_pub" /\ IsEv("Lock") /\ Ev.call = "IsValid" /\ (K(CPub(w)) \cdot Event)
+  \/ \E w \in Threads : ~obs.once /\ pc[w] = "c_cas" /\ once = 0 /\ (K(CCasWin(w)) \cdot InitSteps(w) \cdot Event)
+  \/ \E w \in Threads : ~obs.once /\ pc[w] = "c_cas" /\ once = 0 /\ (K(CCasWin(w)) \cdot InitSteps(w) \cdot K(CPub(w)) \cdot Event)
+  \/ \E w \in Threads : ~obs.once /\ pc[w] = "c_pub" /\ (K(CPub(w)) \cdot Event)
 TraceSpec == TraceInit /\ [][TraceNext]_tvars
 
 TraceAccepted ==
